@@ -384,12 +384,30 @@ func NoteCurrent(id string, c interface{}) string {
 	if err != nil {
 		return ""
 	}
-	b, _ := json.MarshalIndent(failDoc{Property: id, Violation: "process died while this case was running (see the attached log)", Case: raw}, "", " ")
-	_ = os.MkdirAll(outDir, 0o755)
 	p := filepath.Join(outDir, fmt.Sprintf("%s.%s.current.json", id, shard))
-	_ = os.WriteFile(p, b, 0o644)
+	noteMu.Lock()
+	defer noteMu.Unlock()
+	f := noteFiles[p]
+	if f == nil {
+		_ = os.MkdirAll(outDir, 0o755)
+		f, err = os.OpenFile(p, os.O_RDWR|os.O_CREATE|os.O_TRUNC, 0o644)
+		if err != nil {
+			return ""
+		}
+		noteFiles[p] = f
+	}
+	// one compact line, rewritten in place (kept open: this runs once per case)
+	doc := append(append([]byte(`{"property":"`+id+`","violation":"process died while this case was running (see the attached log)","case":`), raw...), '}', '\n')
+	if _, err := f.WriteAt(doc, 0); err == nil {
+		_ = f.Truncate(int64(len(doc)))
+	}
 	return p
 }
+
+var (
+	noteMu    sync.Mutex
+	noteFiles = map[string]*os.File{}
+)
 
 // Fuzz hands a property (generator + oracle) to Go's native coverage-guided fuzzer through
 // rapid.MakeFuzz: the fuzzer's bytes drive the rapid generators, so the same structured cases and
